@@ -1,6 +1,8 @@
 package opcat
 
 import (
+	"fmt"
+
 	"gorm.io/gorm"
 	"gorm.io/gorm/clause"
 )
@@ -192,34 +194,11 @@ func All() []Op {
 			},
 			Delta: d("users", 1, "user_languages", 1, "audits", 1)},
 		// ------------------------------------------------------- CreateInBatches
-		{Name: "batches-plain-3", Kind: "batch", Text: `CreateInBatches(&[]User{5}, 2)`,
-			Run: func(db *gorm.DB) error {
-				return db.CreateInBatches(&[]User{{Name: "a"}, {Name: "b"}, {Name: "c"}, {Name: "d"}, {Name: "e"}}, 2).Error
-			},
-			Delta: d("users", 5, "audits", 5)},
-		{Name: "batches-graph-2", Kind: "batch", Text: `CreateInBatches(&[]User{4 with company, pets, languages}, 2)`,
-			Run: func(db *gorm.DB) error {
-				us := []User{}
-				for _, n := range []string{"a", "b", "c", "d"} {
-					us = append(us, User{Name: n, Company: Company{Name: n + "-co"}, Pets: []*Pet{{Name: n + "-p"}}, Languages: []Language{{Code: "l" + n, Name: n}}})
-				}
-				return db.CreateInBatches(&us, 2).Error
-			},
-			Delta: d("users", 4, "companies", 4, "pets", 4, "languages", 4, "user_languages", 4, "audits", 8)},
 		{Name: "batches-single-batch", Kind: "batch", Text: `CreateInBatches(&[]User{2 with pets}, 5)`,
 			Run: func(db *gorm.DB) error {
 				return db.CreateInBatches(&[]User{{Name: "a", Pets: []*Pet{{Name: "pa"}}}, {Name: "b"}}, 5).Error
 			},
 			Delta: d("users", 2, "pets", 1, "audits", 3)},
-		{Name: "batches-session-batch-size", Kind: "batch", Text: `Session{CreateBatchSize:2}.Create(&[]User{5 with account})`,
-			Run: func(db *gorm.DB) error {
-				us := []User{}
-				for _, n := range []string{"a", "b", "c", "d", "e"} {
-					us = append(us, User{Name: n, Account: Account{Number: n}})
-				}
-				return db.Session(&gorm.Session{CreateBatchSize: 2}).Create(&us).Error
-			},
-			Delta: d("users", 5, "accounts", 5, "audits", 5)},
 		{Name: "batches-ptr-slice", Kind: "batch", Text: `CreateInBatches([]*User{3 with toys}, 1)`,
 			Run: func(db *gorm.DB) error {
 				return db.CreateInBatches([]*User{{Name: "a", Toys: []Toy{{Name: "t"}}}, {Name: "b", Toys: []Toy{{Name: "t"}}}, {Name: "c"}}, 1).Error
@@ -343,8 +322,58 @@ func All() []Op {
 			Run:   func(db *gorm.DB) error { return db.Where("age > ?", 35).Delete(&User{}).Error },
 			Delta: d("users", -2, "audits", 1)},
 	}
+	ops = append(ops, batchOps()...)
 	ops = append(ops, readOps()...)
 	return ops
+}
+
+// batchOps: CreateInBatches and Session{CreateBatchSize}.Create for every
+// batch-count boundary: (len,size) with exactly one batch (2,2), one full and
+// one partial batch (3,2), (5,3), (7,4), two full batches (4,2), two full and
+// one partial (5,2) — with plain records and with records carrying nested
+// associations (belongs-to, has-many, many-to-many).
+func batchOps() []Op {
+	var out []Op
+	names := []string{"a", "b", "c", "d", "e", "f", "g"}
+	mk := func(n int, graph bool) []User {
+		us := make([]User, 0, n)
+		for _, nm := range names[:n] {
+			u := User{Name: nm}
+			if graph {
+				u.Company = Company{Name: nm + "-co"}
+				u.Pets = []*Pet{{Name: nm + "-p"}}
+				u.Languages = []Language{{Code: "l" + nm, Name: nm}}
+			}
+			us = append(us, u)
+		}
+		return us
+	}
+	for _, ls := range [][2]int{{2, 2}, {3, 2}, {5, 3}, {4, 2}, {5, 2}, {7, 4}} {
+		n, size := ls[0], ls[1]
+		for _, graph := range []bool{false, true} {
+			if graph && n == 7 {
+				continue
+			}
+			shape, delta := "plain", d("users", n, "audits", n)
+			if graph {
+				shape, delta = "graph", d("users", n, "companies", n, "pets", n, "languages", n, "user_languages", n, "audits", 2*n)
+			}
+			n, size, graph := n, size, graph
+			out = append(out,
+				Op{Name: fmt.Sprintf("batches-%dx%d-%s", n, size, shape), Kind: "batch",
+					Text:  fmt.Sprintf("CreateInBatches(&[]User{%d %s}, %d)", n, shape, size),
+					Run:   func(db *gorm.DB) error { us := mk(n, graph); return db.CreateInBatches(&us, size).Error },
+					Delta: delta},
+				Op{Name: fmt.Sprintf("batches-session-%dx%d-%s", n, size, shape), Kind: "batch",
+					Text: fmt.Sprintf("Session{CreateBatchSize:%d}.Create(&[]User{%d %s})", size, n, shape),
+					Run: func(db *gorm.DB) error {
+						us := mk(n, graph)
+						return db.Session(&gorm.Session{CreateBatchSize: size}).Create(&us).Error
+					},
+					Delta: delta})
+		}
+	}
+	return out
 }
 
 func loadedAlice() *User { return &User{ID: 1, Name: "alice", Age: 30, CompanyID: up(1)} }
